@@ -421,6 +421,13 @@ func (p *Processor) createSubprocessor(
 		)
 	}
 
+	// The subprocessor's validator needs the publisher's public key (NewValidator panics without it,
+	// in the goroutine started below): a publisher whose peer id does not embed one — an RSA or
+	// ECDSA identity — cannot be validated, so its units are refused here.
+	if _, err = key.Publisher.ExtractPublicKey(); err != nil {
+		return nil, fmt.Errorf("publisher %s has no usable public key: %w", key.Publisher, err)
+	}
+
 	err = p.increaseTasks(key.Publisher)
 	if err != nil {
 		return nil, err
